@@ -52,6 +52,7 @@ def _run_seq(case):
     model = {}
     issued = []
     collisions = reopen = 0
+    deferred = None
     try:
         for n, op in enumerate(case["plan"]):
             k = op[0]
@@ -143,12 +144,21 @@ def _run_seq(case):
             except Exception as e:      # pylint: disable=broad-except
                 if isinstance(e, ValueError) and k == "update":
                     continue
+                if isinstance(e, ValueError) and k == "read" and backend == "mock" and deferred is None:
+                    # MockStorage.read() of a missing id raises (recorded finding): remember it, but keep checking the rest of
+                    # the sequence, so that the finding does not hide anything that comes after it
+                    deferred = ("exception", "op #%d %s on backend %s raised %s: %s" % (n, op, backend, type(e).__name__, str(e)[:150])), collisions, reopen
+                    continue
+                if isinstance(e, ValueError) and k == "read" and backend == "mock":
+                    continue
                 return ("exception", "op #%d %s on backend %s raised %s: %s" % (n, op, backend, type(e).__name__, str(e)[:150])), collisions, reopen
     finally:
         try:
             st.close()
         except Exception:   # pylint: disable=broad-except
             pass
+    if deferred is not None:
+        return deferred[0], collisions, reopen
     return None, collisions, reopen
 
 
